@@ -42,7 +42,9 @@ Dirs == {"c2s", "s2c"}
 
 -----------------------------------------------------------------------------
 (* Part 7 security policy profiles                                           *)
-Uri(p) == "http://opcfoundation.org/UA/SecurityPolicy#" \o p
+\* Part 7 policy URIs (the two newest profiles are written with underscores)
+Uri(p) == "http://opcfoundation.org/UA/SecurityPolicy#" \o
+          (CASE p = "Aes128Sha256RsaOaep" -> "Aes128_Sha256_RsaOaep" [] p = "Aes256Sha256RsaPss" -> "Aes256_Sha256_RsaPss" [] OTHER -> p)
 SymSig(p) == CASE p = "None" -> 0 [] p \in {"Basic128Rsa15", "Basic256"} -> 20 [] OTHER -> 32
 SymBlock == 16
 RsaOverhead(p) == CASE p = "Basic128Rsa15" -> 11 [] p = "Aes256Sha256RsaPss" -> 66 [] OTHER -> 42
